@@ -558,7 +558,11 @@ class Generator:
         if pt is None:
             return None
         T = self.m.model.toks
-        vis = pt.m.vis_toks()
+        # grouping by a constant column is not generated: on SQL it is dropped from GROUP BY, so an
+        # empty input gives one row instead of none (C04 territory, DESIGN.md 12.3)
+        vis = [t for t in pt.m.vis_toks() if T[t].kind != "const"]
+        if not vis:
+            return None
         pref = [t for t in vis if T[t].mod] or vis
         toks = self.rng.sample(pref, min(len(pref), self.rng.choice([1, 1, 2])))
         if self.rng.random() < 0.15:
